@@ -11,8 +11,8 @@ from ..observe import run_async, run_sync
 
 ID = "C06"
 LEVEL = "exploration"
-BUDGET = {"quick": 2400, "thorough": 64000}
-SHARDS = {"quick": 8, "thorough": 16}
+BUDGET = {"quick": 4800, "thorough": 64000}
+SHARDS = {"quick": 16, "thorough": 16}
 RULE = (
     "Part A: one node of every kind (function, if/else gate, route gate, interrupt, nested-graph node, mapping nested-graph node) "
     "with 1-4 parameters (distinct defaults, distinct annotations; inner binding for graph nodes), optionally used/inspected before "
